@@ -97,6 +97,13 @@ def catalogue():
         if k != 1:
             c["_failall"] = 1 if k == 0 else 2
         out.append(c)
+    # ... a configuration DERIVED from its neighbour: the neighbour's validated gradient section copied with another sampler
+    # assignment (model_copy) - whether the neighbour was used for a run before or not must not matter
+    for k in range(2):
+        c = _copy(base); c["samplers"] = [{"method": "norm"}, {"method": "uniform"}]; c["gradient"]["samplers"] = [0, 1, 0]
+        if k == 0:
+            c["_derive"] = [1, 0, 1]
+        out.append(c)
     # ... linear constraints with a variable transform: the neighbours have the same number of rows but other coefficients, and
     # when things are re-used the TRANSFORM OBJECT is shared between them (same scales and offsets)
     for k in range(3):
@@ -161,6 +168,7 @@ def run_once(cfg, seed, reuse, label, nest=False):
     tf = cfg.pop("_transforms", None)
     seedobj = cfg.pop("_seedobj", None)
     failall = cfg.pop("_failall", 0)
+    derive = cfg.pop("_derive", None)
     hascon = "nonlinear_constraints" in cfg
     ncon = len(cfg["nonlinear_constraints"]["upper_bounds"]) if hascon else 0
     if tf is not None and reuse:
@@ -212,6 +220,14 @@ def run_once(cfg, seed, reuse, label, nest=False):
             if isinstance(r, GradientResults) and r.gradients is not None:
                 h.update(r.gradients.weighted_objective.tobytes())
 
+    if derive is not None:
+        # (without the mark this IS the neighbour's configuration; as "another optimization" it ran with seed 99)
+        as_other = _copy(cfg); as_other["gradient"]["seed"] = 99
+        parent = SHARED["configs"].get(repr(as_other) + repr(tf) + repr(seedobj)) if reuse else None
+        if parent is None:
+            parent = EnOptConfig.model_validate(as_other, context=transforms)
+        gradient = parent.gradient.model_copy(update={"samplers": np.array(derive, dtype=np.intc), "seed": (cfg["gradient"]["seed"],)})
+        cfg = {**cfg, "gradient": gradient}
     if reuse:
         # everything that can be re-used is re-used: plug-in manager, context, plan, step object and the validated
         # configuration object of an earlier identical run
